@@ -316,6 +316,11 @@ pub mod verif_hooks {
         Client::new(tx, limit, port_allocator, listener_dropped, terminate_tx)
     }
 
+    /// Connect-request credits currently available to a client.
+    pub fn client_connect_credits(c: &Client) -> usize {
+        c.crediter.0.available_permits()
+    }
+
     /// Splits a `Connect` into its parts.
     pub fn connect_parts(
         c: Connect,
